@@ -69,6 +69,7 @@ type driver struct {
 	gate      *gcGate
 	mapGate   atomic.Pointer[mapGate]
 	faultAt   atomic.Pointer[string] // the next creation of a table file whose path contains this fails (one shot)
+	jobFault  *jobFaultState         // the operation the running flush job loses (under mu)
 	gcMu      sync.Mutex
 	gen       map[partKey]int
 	resMu     sync.Mutex
@@ -161,7 +162,10 @@ func bindReplicator(ps *partState) error {
 func runHistory(idx int, dir, tier string, seed, t0 int64) *ledger {
 	r := histRand(idx, seed)
 	p := makePlan(r, idx, tier, t0)
-	if idx >= directedBase {
+	switch {
+	case idx >= faultBase:
+		p = makeFaultPlan(r, idx-faultBase, tier, seed, t0)
+	case idx >= directedBase:
 		p = directedPlan(idx-directedBase, t0)
 	}
 	L := &ledger{Hist: idx, Seed: seed, Tier: tier, Mode: "step", T0: t0, Shards: p.Shards, Families: p.Families, Old: p.Old, Counters: map[string]int{}}
@@ -170,7 +174,11 @@ func runHistory(idx int, dir, tier string, seed, t0 int64) *ledger {
 	world := imgfs.NewWorld(nodeDir, filepath.Join(dir, "img"))
 	world.SetSkip(skipBuffers)
 	opKinds := map[string]int{}
+	traceOps := os.Getenv("VERIF_C07_TRACE") != ""
 	world.OnOp = func(label string) { // under the world lock
+		if traceOps {
+			fmt.Printf("op %s\n", strings.ReplaceAll(label, nodeDir, "<node>"))
+		}
 		kind := label
 		if i := strings.IndexByte(label, ' '); i > 0 {
 			kind = label[:i]
@@ -359,8 +367,22 @@ func (d *driver) trackedCycle(s *planStep, run func()) {
 	d.curFlush = agg
 	d.real = tr
 	d.active = true
+	d.jobFault = nil
+	if s.FaultOp != nil {
+		d.jobFault = &jobFaultState{spec: s.FaultOp}
+	}
 	d.mu.Unlock()
+	job := jobRec{Cycle: s.Cycle, BeginImg: d.world.Count()}
+	if s.FaultOp != nil {
+		job.Target = s.FaultOp.Target
+		d.mu.Lock()
+		if d.L.VerifyFrom == 0 {
+			d.L.VerifyFrom = job.BeginImg
+		}
+		d.mu.Unlock()
+	}
 	call := d.nextTick()
+	job.BeginTick = call
 	for _, rec := range tr.recs {
 		rec.BeginTick = call
 		rec.SwitchLo = call
@@ -377,16 +399,26 @@ func (d *driver) trackedCycle(s *planStep, run func()) {
 	pend := d.pending
 	d.pending = nil
 	d.curFlush = nil
+	jf := d.jobFault
+	d.jobFault = nil
 	d.mu.Unlock()
 	for _, ch := range pend {
 		<-ch
 	}
 	end, endImg := d.nextTick(), d.world.Count()
+	job.DoneTick, job.DoneImg = end, endImg
 	d.mu.Lock()
+	if jf != nil {
+		d.noteJobFault(tr, jf, &job)
+	}
+	if run == nil {
+		d.L.Jobs = append(d.L.Jobs, job)
+	}
 	for _, key := range tr.order {
 		rec := tr.recs[key]
 		if rec.BeginImg < 0 { // the store was not written at all
 			rec.BeginImg, rec.BeginTickHi, rec.SwitchLo = endImg, end, end
+			rec.Skipped = true
 		}
 		if rec.DoneImg < 0 {
 			rec.DoneImg, rec.DoneTick = endImg, end
@@ -726,6 +758,9 @@ func (d *driver) cleanupRace(s *planStep) {
 
 // fault answers whether the operation fails instead of running (injected table file fault).
 func (d *driver) fault(label string) error {
+	if err := d.jobFaultAt(label); err != nil {
+		return err
+	}
 	m := d.faultAt.Load()
 	if m == nil || !strings.HasPrefix(label, "create ") || !strings.Contains(label, *m) {
 		return nil
